@@ -175,6 +175,108 @@ func genNearMiss(r *Rng, u unitsD) string {
 	}
 }
 
+func fmtFloatCase(u unitsD, x float64) *sx.Node { return sx.L(sx.A("fmtfloat"), u.sx(), flSx(x)) }
+func parseFloatCase(u unitsD, s string) *sx.Node {
+	return sx.L(sx.A("parsefloat"), u.sx(), sx.S(s))
+}
+func unserCase(u unitsD, s string) *sx.Node { return sx.L(sx.A("unser"), u.sx(), sx.S(s)) }
+
+func obsParseFloat(def *schema.UnitsDefinition, s string) *sx.Node {
+	v, err := def.ParseFloat(s)
+	if err != nil {
+		return sx.A("err")
+	}
+	return sx.L(sx.A("ok"), flSx(v))
+}
+
+// obsUnserNum: Unserialize of a string by an int / float schema; the value or that it is an error
+func obsUnserNum(t schema.Type, s string) *sx.Node {
+	v, err := t.Unserialize(s)
+	if err != nil {
+		return sx.A("err")
+	}
+	switch x := v.(type) {
+	case int64:
+		return sx.L(sx.A("ok"), sx.I(x))
+	case float64:
+		return sx.L(sx.A("ok"), flSx(x))
+	}
+	return sx.A("other")
+}
+
+// strings that are NOT counts followed by declared unit names but that some number parser of the
+// standard library accepts (strconv.ParseFloat / ParseInt with base 0 / big literals): a schema
+// with units must reject each of them exactly as the units parser does
+var numberLookalikes = []string{
+	"1e3", "1E3", "1e+3", "1e-3", "2.5e2", "1e400", "1E400", "1e-400", "0x10", "0X1F", "0x1p-2", "0x1.8p1", "0x_10", "1_000", "0b101", "0o17",
+	"Inf", "inf", "+Inf", "-Inf", "infinity", "Infinity", "+infinity", "NaN", "nan", ".5", "5.", ".", "-3", "+3", "-0", "+0", "-1.5", "+1.5",
+	"- 3", "1,5", "1 000", "٣", "1e", "e3", "--3", "0x", "1.2.3", "1..2", " 1e3 ", "\t.5\n",
+}
+
+// genFloat: non-negative floats of every flavour the formatter distinguishes: whole numbers (also
+// ending in zeros), multiples of the multipliers, fractions with few and with many digits
+func genFloat(r *Rng, u unitsD) float64 {
+	ks := u.sortedMults()
+	switch r.Intn(8) {
+	case 0:
+		return float64(r.Intn(100000)) // whole
+	case 1:
+		return float64(r.Intn(1000)) * float64(pick(r, []int64{10, 100, 1000, 10000})) // whole, trailing zeros
+	case 2:
+		if len(ks) > 0 { // whole multiples of a multiplier plus a round remainder
+			m := ks[r.Intn(len(ks))]
+			if m < 1<<40 {
+				return float64(m)*float64(r.Intn(200)) + float64(10*r.Intn(12))
+			}
+		}
+		return float64(10 * r.Intn(1000))
+	case 3:
+		return float64(r.Intn(1000000)) / float64(pick(r, []int64{2, 4, 8, 10, 100, 1000})) // short fractions
+	case 4:
+		return float64(r.Intn(100000)) + float64(r.Intn(1000000))/1e6 // six fraction digits
+	case 5:
+		return float64(r.Next()>>11) / float64(uint64(1)<<53) * float64(pick(r, []int64{1, 100, 100000, 1 << 40})) // any mantissa
+	case 6:
+		return float64(r.Next() >> uint(12+r.Intn(50))) // large whole numbers up to 2^52
+	default:
+		return float64(r.Intn(5000))/10 + float64(r.Intn(3))*0.05
+	}
+}
+
+// genWellFormedFloat: like genWellFormed but some counts carry a decimal fraction
+func genWellFormedFloat(r *Rng, u unitsD) string {
+	ks := u.sortedMults()
+	var b strings.Builder
+	count := func() {
+		if r.Chance(40) {
+			fmt.Fprintf(&b, "%d.%s", r.Intn(500), pick(r, []string{"0", "5", "25", "125", "10", "000001", "999999", "50"}))
+		} else {
+			fmt.Fprintf(&b, "%d", r.Intn(3000))
+		}
+	}
+	sp := func() {
+		if r.Chance(25) {
+			b.WriteString(" ")
+		}
+	}
+	for i := len(ks) - 1; i >= 0; i-- {
+		if r.Chance(55) {
+			continue
+		}
+		ud := u.mults[ks[i]]
+		count()
+		sp()
+		b.WriteString(pick(r, []string{ud.ss, ud.sp, ud.ls, ud.lp}))
+		sp()
+	}
+	if r.Chance(70) {
+		count()
+		sp()
+		b.WriteString(pick(r, []string{"", u.base.ss, u.base.sp, u.base.ls, u.base.lp}))
+	}
+	return b.String()
+}
+
 func init() {
 	families["units"] = &Family{
 		Gen: func(r *Rng, tier string, emit func(*sx.Node)) {
@@ -196,9 +298,33 @@ func init() {
 				emit(fmtIntCase(secs, n))
 				emit(fmtIntCase(byt, n))
 			}
+			// the float side: whole numbers ending in zeros, 0.0, round components, fractions
+			pct := unitsFromSDK(schema.UnitPercentage)
+			for _, x := range []float64{0, 1, 5.1, 7, 10, 70, 100, 130, 600, 1000, 4200, 6000, 86400, 100000, 0.5, 10.5, 1536, 1e-7, 0.000001, 59.9999999, 1.05, 100.01} {
+				emit(fmtFloatCase(secs, x))
+				emit(fmtFloatCase(byt, x))
+				emit(fmtFloatCase(pct, x))
+			}
+			for _, s := range []string{"1.5s", "1.5m", "1m1.5s", "0.5", "2H0.25", "10", "010", "5.25", "1.5m30s", "1.5 m 30.5 s", "1.m", ".5m", "1e3", "Inf", "NaN"} {
+				emit(parseFloatCase(secs, s))
+			}
+			for _, s := range []string{"1e3", "Inf", "NaN", "0x1p-2", ".5", "5.", "-3", "+3", "5", "5.25", "010", "5m30s", "1.5m"} {
+				emit(unserCase(secs, s))
+			}
+			fsweep, nFlt := int64(250), 50
+			if tier == "thorough" {
+				fsweep, nFlt = 20000, 2000
+			}
 			for _, d := range defs {
 				for n := int64(0); n <= sweep; n++ {
 					emit(fmtIntCase(d, n))
+				}
+				for n := int64(0); n <= fsweep; n++ {
+					emit(fmtFloatCase(d, float64(n)))
+				}
+				for n := int64(0); n <= fsweep; n += 7 {
+					emit(fmtFloatCase(d, float64(n*10)))
+					emit(fmtFloatCase(d, float64(n)/4))
 				}
 			}
 			for i := 0; i < nGen; i++ {
@@ -228,6 +354,33 @@ func init() {
 					emit(parseCase(d, genWellFormed(r, d)))
 					emit(parseCase(d, genNearMiss(r, d)))
 				}
+				// floats: format short+long then ParseFloat; float strings; the schema entry points
+				for i := 0; i < nFlt; i++ {
+					emit(fmtFloatCase(d, genFloat(r, d)))
+				}
+				for _, m := range d.sortedMults() {
+					if m < 1<<40 {
+						for _, k := range []int64{1, 10, 30} {
+							emit(fmtFloatCase(d, float64(m*k)))
+							emit(fmtFloatCase(d, float64(m*k)+10))
+							emit(fmtFloatCase(d, float64(m*k)-0.5))
+						}
+					}
+				}
+				for i := 0; i < nStr/2; i++ {
+					emit(parseFloatCase(d, genWellFormedFloat(r, d)))
+					emit(parseFloatCase(d, genNearMiss(r, d)))
+					emit(unserCase(d, genWellFormedFloat(r, d)))
+					emit(unserCase(d, genNearMiss(r, d)))
+				}
+				for _, s := range numberLookalikes {
+					emit(unserCase(d, s))
+				}
+				for i := 0; i < 6; i++ {
+					// a look-alike glued to a well-formed string, and one followed by a declared name
+					emit(unserCase(d, pick(r, numberLookalikes)+pick(r, []string{d.base.ss, d.base.lp, " " + d.base.sp})))
+					emit(unserCase(d, genWellFormed(r, d)+pick(r, numberLookalikes)))
+				}
 			}
 		},
 		Run: func(p *sx.Node) *sx.Node {
@@ -247,6 +400,19 @@ func init() {
 				return sx.L(sx.A("r"), sx.S(s), sx.S(l), obsParse(s), obsParse(l))
 			case "parse":
 				return sx.L(sx.A("r"), obsParse(p.List[2].Str))
+			case "fmtfloat":
+				x := flFromSx(p.List[2])
+				s, l := def.FormatShortFloat(x), def.FormatLongFloat(x)
+				return sx.L(sx.A("r"), sx.S(s), sx.S(l), obsParseFloat(def, s), obsParseFloat(def, l))
+			case "parsefloat":
+				return sx.L(sx.A("r"), obsParseFloat(def, p.List[2].Str))
+			case "unser":
+				// the schema entry points of a schema WITH units, next to the units parser itself
+				s := p.List[2].Str
+				return sx.L(sx.A("r"),
+					obsUnserNum(schema.NewIntSchema(nil, nil, def), s),
+					obsUnserNum(schema.NewFloatSchema(nil, nil, def), s),
+					obsParse(s), obsParseFloat(def, s))
 			}
 			return sx.L(sx.A("bad"), sx.S("units case"))
 		},
